@@ -2,6 +2,9 @@ import SdModel.Model.Sx
 import SdModel.Model.Slots
 import SdModel.Model.Rope
 import SdModel.Gen.Params
+import SdModel.Model.Script
+import SdModel.Model.Codec
+import SdModel.Model.Lev
 
 open Sx
 
@@ -168,10 +171,99 @@ def handle (legacy : Bool) : List Sx → Sx
   | _ => tag "bad-req" []
 end DRope
 
+
+/-! ## ordered scripts, diff algorithms, codecs -/
+namespace DOrd
+open Script
+
+def nanCode : Nat := 999999
+def eqNat (a b : Nat) : Bool := a == b
+def eqNan (a b : Nat) : Bool := a == b && a != nanCode
+
+def costs : Lev.Costs := ⟨Gen.deleteCost, Gen.replaceCost, Gen.insertCost⟩
+
+def changeSx : Change Nat → Sx
+  | .replace v i => tag "Replace" [ofNat v, ofNat i]
+  | .insert v i => tag "Insert" [ofNat v, ofNat i]
+  | .delete i none => tag "Delete" [ofNat i, .atom "None"]
+  | .delete i (some r) => tag "Delete" [ofNat i, tag "Some" [ofNat r]]
+  | .swap a b => tag "Swap" [ofNat a, ofNat b]
+
+def changeOf : Sx → Option (Change Nat)
+  | .list [.atom "Replace", v, i] => do some (.replace (← nat? v) (← nat? i))
+  | .list [.atom "Insert", v, i] => do some (.insert (← nat? v) (← nat? i))
+  | .list [.atom "Delete", i, .atom "None"] => do some (.delete (← nat? i) none)
+  | .list [.atom "Delete", i, .list [.atom "Some", r]] => do some (.delete (← nat? i) (some (← nat? r)))
+  | .list [.atom "Swap", a, b] => do some (.swap (← nat? a) (← nat? b))
+  | _ => none
+
+def scriptOf : Sx → Option (List (Change Nat))
+  | .list l => l.mapM changeOf
+  | _ => none
+
+def scriptSx (s : List (Change Nat)) : Sx := .list (s.map changeSx)
+
+def fmtOf : Sx → Option Codec.Fmt
+  | .atom "nano" => some .nano
+  | .atom "bincode" => some .bincode
+  | _ => none
+
+def applied (s : List (Change Nat)) (src : List Nat) : List Sx :=
+  [tag "list" [match runList s src with | some r => ofNats r | none => .atom "oob"],
+   tag "rope" [match Script.apply Gen.ropeParams s src with | .ok r => ofNats r | .error _ => .atom "panic"]]
+
+def diffResp (r : Option (List (Change Nat))) (src : List Nat) (withWire : Bool) : Sx :=
+  match r with
+  | none => tag "none" []
+  | some s =>
+    tag "some" ([tag "script" [scriptSx s]] ++
+      (if withWire then
+        [tag "nano-owned" [ofNats (Codec.encScript .nano s)], tag "nano-ref" [ofNats (Codec.encScriptRef .nano s)],
+         tag "bincode-owned" [ofNats (Codec.encScript .bincode s)], tag "bincode-ref" [ofNats (Codec.encScriptRef .bincode s)]]
+       else []) ++ applied s src)
+
+def handle (name : String) : List Sx → Sx
+  | [t, s] =>
+    match nats? t, nats? s with
+    | some t, some s =>
+      match name with
+      | "lev" => diffResp (Lev.levenshtein eqNat costs t s) s true
+      | "hirsch" => diffResp (Lev.hirschberg eqNat costs Gen.levCutoff t s) s true
+      | "lev-nan" => diffResp (Lev.levenshtein eqNan costs t s) s false
+      | "hirsch-nan" => diffResp (Lev.hirschberg eqNan costs Gen.levCutoff t s) s false
+      | _ => tag "bad-req" []
+    | _, _ => tag "bad-req" []
+  | _ => tag "bad-req" []
+
+def handleEnc : List Sx → Sx
+  | [f, s] =>
+    match fmtOf f, scriptOf s with
+    | some f, some s => tag "bytes" [ofNats (Codec.encScript f s)]
+    | _, _ => tag "bad-req" []
+  | _ => tag "bad-req" []
+
+def handleApplyBytes : List Sx → Sx
+  | [f, bs, l] =>
+    match fmtOf f, nats? bs, nats? l with
+    | some f, some bs, some l =>
+      match Codec.decScript f bs with
+      | some (s, []) =>
+        tag "ok" ([tag "decoded" [scriptSx s], tag "reenc" [ofNats (Codec.encScript f s)]] ++ applied s l)
+      | _ => tag "reject" []
+    | _, _, _ => tag "bad-req" []
+  | _ => tag "bad-req" []
+end DOrd
+
 def dispatch (legacy : Bool) (x : Sx) : Sx :=
   match x with
   | .list (.atom "slots" :: rest) => DSlots.handle legacy rest
   | .list (.atom "rope" :: rest) => DRope.handle legacy rest
+  | .list (.atom "lev" :: rest) => DOrd.handle "lev" rest
+  | .list (.atom "hirsch" :: rest) => DOrd.handle "hirsch" rest
+  | .list (.atom "lev-nan" :: rest) => DOrd.handle "lev-nan" rest
+  | .list (.atom "hirsch-nan" :: rest) => DOrd.handle "hirsch-nan" rest
+  | .list (.atom "enc" :: rest) => DOrd.handleEnc rest
+  | .list (.atom "apply-bytes" :: rest) => DOrd.handleApplyBytes rest
   | _ => tag "bad-req" []
 
 partial def loop (legacy : Bool) (h : IO.FS.Stream) (out : IO.FS.Stream) : IO Unit := do
